@@ -345,7 +345,108 @@ theorem message_core (l : Host.LCD) (top bottom : Option (List Char)) (ta ba : A
     message_step l1 bottom 1 ba clear (by rw [n1, r1]) (by rw [c1]; exact s1) (by rw [c1]; exact hc) hr1
   unfold Host.message
   cases top <;> cases bottom <;> simp only [bind, Except.bind, pure, Except.pure] at e1 e2 b1 b2 ⊢
-  all_goals trace_state
-  all_goals sorry
+  · exact ⟨_, _, rfl, rfl, rfl, rfl, hlen, hsh⟩
+  · have hl1 : l = l1 := by injection e1 with h; exact (Prod.mk.inj h).1
+    subst hl1
+    rw [if_pos (by omega : l.rows > 1), e2]
+    exact ⟨_, _, rfl, c2, r2, b2, n2, s2⟩
+  · rw [e1]
+    exact ⟨_, _, rfl, c1, r1, b1, n1, s1⟩
+  · rw [e1]
+    simp only []
+    rw [if_pos (by omega : l1.rows > 1), e2]
+    refine ⟨_, _, rfl, by rw [c2, c1], by rw [r2, r1], ?_, by rw [n2, r1], by rw [← c1]; exact s2⟩
+    simp only [b2, b1, c1]
+
+theorem writeAligned_negcol (g : Grid) (cols col row : Int) (text : List Char) (clear : Bool) (align : Align)
+    (h : col < 0) :
+    Fw.writeAligned g cols col row text clear align = Fw.writeAligned g cols 0 row text clear align := by
+  unfold Fw.writeAligned
+  simp only [if_pos h, Int.lt_irrefl, if_false]
+
+theorem clearRow_prints (g : Grid) (cols : Nat) (row : Int) :
+    ∀ p ∈ (Fw.clearRow g (Int.ofNat cols) row).prints,
+      (0 ≤ p.col ∧ p.col + Int.ofNat p.len ≤ Int.ofNat cols) ∧ p.row = row := by
+  intro p hp
+  unfold Fw.clearRow at hp
+  split at hp
+  · simp at hp
+  · rw [List.mem_singleton] at hp
+    subst hp
+    refine ⟨⟨Int.le_refl 0, ?_⟩, rfl⟩
+    show (0:Int) + Int.ofNat (Int.ofNat cols).toNat ≤ Int.ofNat cols
+    simp only [Int.ofNat_eq_natCast, Int.toNat_natCast]
+    omega
+
+theorem writeAligned_prints_inrange (g : Grid) (cols : Nat) (col row : Int) (text : List Char) (clear : Bool)
+    (align : Align) (hcol : 0 ≤ col ∧ col < Int.ofNat cols) :
+    ∀ p ∈ (Fw.writeAligned g (Int.ofNat cols) col row text clear align).prints,
+      (0 ≤ p.col ∧ p.col + Int.ofNat p.len ≤ Int.ofNat cols) ∧ p.row = row := by
+  intro p hp
+  rw [writeAligned_eq _ _ _ _ _ _ _ hcol] at hp
+  simp only [List.mem_append, List.mem_singleton] at hp
+  rcases hp with hp | hp
+  · cases clear
+    · simp at hp
+    · exact clearRow_prints g cols row p hp
+  · subst hp
+    have hl := cont_length_le (Int.ofNat cols - col) text (by omega)
+    have hb := offs_bounds (Int.ofNat cols - col) col (Int.ofNat (cont (Int.ofNat cols - col) text).length)
+      align (by rw [Int.ofNat_eq_natCast]; omega) hl
+    refine ⟨⟨Int.le_trans hcol.1 hb.1, ?_⟩, rfl⟩
+    show offs _ _ _ _ + Int.ofNat (cont _ _).length ≤ _
+    omega
+
+theorem writeAligned_prints (g : Grid) (cols : Nat) (col row : Int) (text : List Char) (clear : Bool)
+    (align : Align) :
+    ∀ p ∈ (Fw.writeAligned g (Int.ofNat cols) col row text clear align).prints,
+      (0 ≤ p.col ∧ p.col + Int.ofNat p.len ≤ Int.ofNat cols) ∧ p.row = row := by
+  by_cases hc : Int.ofNat cols ≤ 0
+  · intro p hp
+    unfold Fw.writeAligned at hp
+    rw [if_pos hc] at hp
+    simp at hp
+  · by_cases hn : col < 0
+    · rw [writeAligned_negcol _ _ _ _ _ _ _ hn]
+      exact writeAligned_prints_inrange g cols 0 row text clear align ⟨Int.le_refl 0, by omega⟩
+    · by_cases hge : col ≥ Int.ofNat cols
+      · intro p hp
+        unfold Fw.writeAligned at hp
+        simp only [if_neg hc, if_neg hn, if_pos hge] at hp
+        simp at hp
+      · exact writeAligned_prints_inrange g cols col row text clear align ⟨by omega, by omega⟩
+
+theorem getD_writeAligned (g : Grid) (cols col row : Int) (text : List Char) (clear : Bool) (align : Align)
+    (r : Nat) (hr : Int.ofNat r ≠ row) :
+    (Fw.writeAligned g cols col row text clear align).grid.getD r [] = g.getD r [] := by
+  unfold Fw.writeAligned
+  by_cases h1 : cols ≤ 0
+  · rw [if_pos h1]
+  · rw [if_neg h1]
+    simp only []
+    by_cases h2 : (if col < 0 then 0 else col) ≥ cols
+    · rw [if_pos h2]
+    · rw [if_neg h2]
+      simp only [getD_printAt, if_neg hr]
+      cases clear
+      · rfl
+      · exact getD_clearRow g cols row r hr
+
+theorem progress_prints (g : Grid) (cols : Nat) (row value maxValue width : Int) (fill : Char) (label : List Char) :
+    ∀ p ∈ (Fw.progress g (Int.ofNat cols) row value maxValue width fill label).prints,
+      (0 ≤ p.col ∧ p.col + Int.ofNat p.len ≤ Int.ofNat cols) ∧ p.row = row := by
+  intro p hp
+  unfold Fw.progress at hp
+  split at hp
+  · simp at hp
+  · rename_i hc
+    simp only [List.mem_append, List.mem_singleton] at hp
+    rcases hp with hp | hp
+    · exact clearRow_prints g cols row p hp
+    · subst hp
+      refine ⟨⟨Int.le_refl 0, ?_⟩, rfl⟩
+      show (0:Int) + Int.ofNat (cont (Int.ofNat cols) _).length ≤ Int.ofNat cols
+      rw [Int.zero_add]
+      exact cont_length_le _ _ (by omega)
 
 end Reduino.Lemmas.C17
